@@ -48,7 +48,7 @@ SAMPLES = {
     "puny": "5a197a8bb628a2555f5a86c51b85abd7.bin.zip",
     "guard": "124552cf674b362e0c916ab79b9e7a56.bin.zip",
 }
-ENTRY_POINTS = ["from_bytes", "from_file", "from_path", "xordecode", "find_mz_offset", "find_architecture", "find_compile_stamps",
+ENTRY_POINTS = ["from_bytes", "from_file", "from_path", "iter_blocks", "xordecode", "find_mz_offset", "find_architecture", "find_compile_stamps",
                 "find_magic_mz", "find_magic_pe", "find_stage_prepend_append", "artifactkit", "parse_raw_http"]
 
 
@@ -92,6 +92,12 @@ def call_entry(ep, data, mode, ctx):
                 os.write(fd, data)
                 os.close(fd)
                 res = beacon.BeaconConfig.from_path(tmp, xor_keys=keys, all_xor_keys=allk)
+            elif ep == "iter_blocks":
+                # the documented extraction generator, fully consumed, with every combination of its keyword arguments
+                res = []
+                for xd in (True, False):
+                    for ak in (False, True):
+                        res.append(sum(1 for _ in beacon.iter_beacon_config_blocks(io.BytesIO(data), xor_keys=keys, xordecode=xd, all_xor_keys=ak)))
             elif ep == "xordecode":
                 res = xordecode.XorEncodedFile.from_file(io.BytesIO(data))
             elif ep == "artifactkit":
@@ -104,6 +110,8 @@ def call_entry(ep, data, mode, ctx):
     except ValueError:
         if ep in ("from_bytes", "from_file", "from_path", "xordecode", "parse_raw_http"):
             return None
+        if ep == "iter_blocks":
+            return "exception.class", "iter_beacon_config_blocks raised ValueError; it documents yielding zero or more blocks"
         return "exception.class", f"{ep} raised ValueError but documents a 'not found' value, not an exception"
     except steps.Overrun as e:
         return "bounded.progress", f"{ep}: unbounded looping: {e}"
@@ -135,6 +143,8 @@ def call_entry(ep, data, mode, ctx):
         ok = res is None or isinstance(res, bytes)
     elif ep == "find_stage_prepend_append":
         ok = isinstance(res, tuple) and len(res) == 2 and all(x is None or isinstance(x, bytes) for x in res)
+    elif ep == "iter_blocks":
+        ok = all(isinstance(n, int) for n in res)
     elif ep == "artifactkit":
         ok = all(isinstance(x, artifact.ArtifactKitPayload) and x.offset >= 0 for x in res)
     elif ep == "parse_raw_http":
@@ -360,6 +370,8 @@ def calls_for(rng, kind, data, tier):
             eps.append((ep, "default"))
     if rng.random() < 0.4:
         eps.append(("xordecode", "default"))
+    if len(data) < 6000 and kind != "xorpe" and rng.random() < 0.15:
+        eps.append(("iter_blocks", rng.choice(["default", "caller"])))
     if rng.random() < 0.1:
         eps.append(("artifactkit", "default") if len(data) < 30000 else ("parse_raw_http", "default"))
     if rng.random() < 0.1:
